@@ -25,12 +25,16 @@ pub mod cg_b { use ts_rs::TS; #[derive(TS)] #[ts(export_to = "cg_b/")] pub struc
 #[derive(TS)] #[ts(export_to = "cg_sp/gen/../types.ts")] pub struct CgSpellB { pub b: CgAnchor }
 #[derive(TS)] #[ts(export_to = "./cg_sp/./x/y/../../types.ts")] pub struct CgSpellC { pub c: Vec<CgSpellA> }
 #[derive(TS)] pub struct CgSpellAll { pub a: CgSpellA, pub b: CgSpellB, pub c: CgSpellC }
+#[derive(TS)] #[ts(concrete(C = i32))] pub struct CgFive<A, B, C, D, E> { pub a: A, pub b: Vec<B>, pub c: C, pub d: Option<D>, pub e: E }
+#[derive(TS)] #[ts(concrete(X = String, Z = bool))] pub enum CgSix<U, V, W, X, Y, Z> { One(U, V), Two { w: W, x: X }, Three(Y, Z) }
+#[derive(TS)] pub struct CgFiveUser { pub five: CgFive<u8, String, i32, bool, CgAnchor>, pub six: CgSix<u8, u16, CgAnchor, String, Vec<u8>, bool> }
 #[derive(TS)] pub struct CgHolder { pub two: CgMatrix<i32, 2>, pub three: CgMatrix<i32, 3>, pub buf: CgBuf<1>, #[ts(inline)] pub choice: CgChoice<2> }
 """
 CONST_GENERIC_ENTRIES = [("Cg:matrix2", "CgMatrix<i32, 2>"), ("Cg:matrix3", "CgMatrix<i32, 3>"), ("Cg:matrix0", "CgMatrix<String, 0>"),
                          ("Cg:buf1", "CgBuf<1>"), ("Cg:buf34", "CgBuf<3, 4>"), ("Cg:choice1", "CgChoice<1>"), ("Cg:choice2", "CgChoice<2>"),
                          ("Cg:holder", "CgHolder"), ("Cg:point", "CgPoint<i32>"), ("Cg:point2", "CgPoint2"), ("Cg:point3", "CgPoint3"), ("Cg:anchor", "CgAnchor"),
                          ("Cg:spellA", "CgSpellA"), ("Cg:spellB", "CgSpellB"), ("Cg:spellC", "CgSpellC"), ("Cg:spellAll", "CgSpellAll"),
+                         ("Cg:five", "CgFive<u8, String, i32, bool, CgAnchor>"), ("Cg:six", "CgSix<u8, u16, CgAnchor, String, Vec<u8>, bool>"), ("Cg:fiveUser", "CgFiveUser"),
                          ("Cg:bothA", "CgBothA"), ("Cg:bothB", "CgBothB"), ("Cg:bothC", "CgBothC"),
                          # renders that fail (nothing to export): what such a call leaves behind must not reach the next one
                          ("nx:vec", "Vec<CgHolder>"), ("nx:opt", "Option<CgBuf<1>>"), ("nx:prim", "i32"), ("nx:tuple", "(CgHolder, String)")]
